@@ -232,6 +232,17 @@ func main() {
 		for _, l := range strings.Split(strings.TrimSpace(describeBM(bm, bi.CPNames)), "\n") {
 			fmt.Println("//@@DESC " + l)
 		}
+		if len(os.Args) > 3 && os.Args[3] == "onlydestregs" {
+			// the way the tools do it: basm exports its requirement tree, bondmachine imports it and generates the
+			// processors for the destination registers the program uses
+			reqs := bi.DumpRequirements()
+			rg, err := bmreqs.Import(&reqs)
+			if err != nil {
+				fmt.Println("BASM-ERROR requirements:", err)
+				return
+			}
+			hwReqRoot = rg
+		}
 		writeModules(bm)
 	case "bmfull":
 		// bmfull "<rsize>;<N>:<M>:<R>:<O>:<op+op+...>,...;I,O,P0,...;bonds" : every module of the machine
@@ -409,6 +420,9 @@ func describeBM(bm *bondmachine.Bondmachine, names map[int]string) string {
 	return sb.String()
 }
 
+// hwReqRoot: when set, processors are generated with the onlydestregs optimisation from this requirement tree
+var hwReqRoot *bmreqs.ReqRoot
+
 // writeModules prints every module of a machine: top level, and per processor the processor, its ROM and its arch wrapper
 func writeModules(bm *bondmachine.Bondmachine) {
 	conf := new(bondmachine.Config)
@@ -416,10 +430,15 @@ func writeModules(bm *bondmachine.Bondmachine) {
 	ri := new(procbuilder.RuntimeInfo)
 	ri.Init()
 	pconf.Runinfo = ri
+	if hwReqRoot != nil {
+		pconf.ReqRoot = hwReqRoot
+		pconf.HwOptimizations = procbuilder.SetHwOptimization(pconf.HwOptimizations, procbuilder.HwOptimizations(procbuilder.OnlyDestRegs))
+	}
 	section("main", bm.Write_verilog_main(conf, "bondmachine", "iverilog"))
 	for i, d := range bm.Processors {
 		n := strconv.Itoa(i)
 		mach := bm.Domains[d]
+		mach.Arch.Tag = n // the requirement tree is indexed by the processor id
 		section("proc"+n, mach.Conproc.Write_verilog(pconf, &mach.Arch, "p"+n, "iverilog"))
 		section("rom"+n, mach.Rom.Write_verilog(mach, "p"+n+"rom", "iverilog"))
 		section("arch"+n, mach.Arch.Write_verilog("a"+n, map[string]string{"processor": "p" + n, "rom": "p" + n + "rom", "ram": "p" + n + "ram"}, "iverilog"))
